@@ -125,6 +125,13 @@ pub struct Dump {
     pub node_labels: Vec<Vec<String>>,
     pub node_props: Vec<BTreeMap<String, PV>>,
     pub rank: HashMap<u64, usize>,
+    /// what the model's `St` has no place for: incoming adjacency (both tiers), the store's own
+    /// node / relationship counters, relationship-type index sizes — compared verbatim where
+    /// a store must be *unchanged*
+    pub aux: String,
+    /// incoming adjacency lists describe the same relationships as the outgoing ones, and
+    /// `node_count()` / `edge_count()` agree with what was enumerated
+    pub consistent: bool,
 }
 
 fn col_props(store: &GraphStore, id: NodeId) -> BTreeMap<String, PV> {
@@ -142,6 +149,15 @@ fn col_props(store: &GraphStore, id: NodeId) -> BTreeMap<String, PV> {
 /// The store through its public read API, ids renamed to ranks, everything from a hash
 /// container sorted.  Relationships are read from the adjacency lists (both tiers).
 pub fn dump_store(store: &GraphStore) -> Dump {
+    dump_store_ordered(store, &[])
+}
+
+/// As `dump_store`, but the nodes whose ids are listed in `tail` are named last, in the order
+/// of `tail`.  The model names nodes by handle (creation order); the real store re-uses freed
+/// ids, so a node created later may get a *lower* id than an older one.  `tail` is the
+/// sequence of ids the store will hand out next (probed on an identical copy), which makes the
+/// rank of a node its handle again.
+pub fn dump_store_ordered(store: &GraphStore, tail: &[u64]) -> Dump {
     // nodes: `all_nodes()` lists every MVCC version, oldest first; the last one is current
     let mut order: Vec<u64> = vec![];
     let mut versions: HashMap<u64, Vec<&samyama::graph::Node>> = HashMap::new();
@@ -151,6 +167,16 @@ pub fn dump_store(store: &GraphStore) -> Dump {
             order.push(id);
         }
         versions.entry(id).or_default().push(n);
+    }
+    if !tail.is_empty() {
+        let in_tail: std::collections::HashSet<u64> = tail.iter().copied().collect();
+        let mut o2: Vec<u64> = order.iter().copied().filter(|i| !in_tail.contains(i)).collect();
+        for t in tail {
+            if versions.contains_key(t) && !o2.contains(t) {
+                o2.push(*t);
+            }
+        }
+        order = o2;
     }
     let rank: HashMap<u64, usize> = order.iter().enumerate().map(|(i, id)| (*id, i)).collect();
     let rk = |id: u64| -> usize { rank.get(&id).copied().unwrap_or(1_000_000 + id as usize) };
@@ -245,7 +271,28 @@ pub fn dump_store(store: &GraphStore) -> Dump {
         order.len(),
         edges.len()
     );
-    Dump { text, n_nodes: order.len(), n_edges: edges.len(), multi_version, node_labels, node_props, rank }
+    // incoming adjacency, both tiers, as (src, tgt, edge id) — must describe the same relationships
+    let mut incoming: Vec<(u64, u64, u64)> = vec![];
+    for id in &order {
+        let nid = NodeId::new(*id);
+        let mut inc: Vec<(NodeId, EdgeId)> = store.frozen_incoming_neighbors(*id as usize);
+        inc.extend_from_slice(store.get_incoming_neighbor_slice(nid));
+        for (src, eid) in inc {
+            incoming.push((src.as_u64(), *id, eid.as_u64()));
+        }
+    }
+    incoming.sort();
+    let mut outgoing: Vec<(u64, u64, u64)> = edges.iter().map(|e| (e.1, e.2, e.0)).collect();
+    outgoing.sort();
+    let consistent = incoming == outgoing && store.node_count() == order.len() && store.edge_count() == edges.len();
+    let aux = format!(
+        "in={};node_count={};edge_count={};labels={}",
+        incoming.iter().map(|(s, t, e)| format!("{}>{}#{}", rk(*s), rk(*t), e)).collect::<Vec<_>>().join(","),
+        store.node_count(),
+        store.edge_count(),
+        lidx.len()
+    );
+    Dump { text, n_nodes: order.len(), n_edges: edges.len(), multi_version, node_labels, node_props, rank, aux, consistent }
 }
 
 /// store text without the trailing `|<next>.<next>` counters and with the per-node history
@@ -274,7 +321,20 @@ pub fn comparable(st: &str) -> String {
             })
             .collect()
     };
-    format!("{}|{}", if nodes2.is_empty() { "-".to_string() } else { nodes2.join("+") }, rest)
+    // relationships: order and ids are not part of the comparison (the real store re-uses freed
+    // relationship ids, the model appends) — sort by content and renumber
+    let mut rp = rest.splitn(2, '|');
+    let edges = rp.next().unwrap_or("-");
+    let tail = rp.next().unwrap_or("");
+    let edges2 = if edges == "-" {
+        "-".to_string()
+    } else {
+        let mut es: Vec<String> =
+            edges.split('+').map(|e| e.splitn(2, ';').nth(1).unwrap_or("").to_string()).collect();
+        es.sort();
+        es.iter().enumerate().map(|(i, e)| format!("{};{}", i, e)).collect::<Vec<_>>().join("+")
+    };
+    format!("{}|{}|{}", if nodes2.is_empty() { "-".to_string() } else { nodes2.join("+") }, edges2, tail)
 }
 
 // ---------------------------------------------------------------------------------------------
